@@ -55,8 +55,10 @@ impl PortRange {
                 }
             }
             Self::Range(start, end) => {
-                let port_count = end - start + 1;
-                if count != port_count {
+                let port_count = (u32::from(*end) + 1)
+                    .checked_sub(u32::from(*start))
+                    .ok_or_else(|| eyre!("End port must be greater than start port"))?;
+                if u32::from(count) != port_count {
                     error!("The count ({count}) does not match the number of ports ({port_count})");
                     return Err(eyre!(
                         "The count ({count}) does not match the number of ports ({port_count})"
